@@ -210,8 +210,10 @@ def rule_source_map_per_function(ctx, rep, rid: str) -> None:
                     rep.bad(rid, key, f"{m.name} builds a CompiledFunction without a source_map: errors thrown inside such functions have no line/column", loc)
                     continue
                 if m.name != "compile":
-                    txts = [norm(s) for s in m.body()]
-                    if not (any(x == "self.source_map = {}" for x in txts) and any(x.startswith("self.source_map = old") for x in txts)):
+                    from ..util import state_protocol
+
+                    _sv, _rs, _rt = state_protocol(ctx, m)
+                    if not ("source_map" in _rs and "source_map" in _rt):
                         rep.bad(rid, key, f"{m.name} passes source_map but does not reset/restore self.source_map around the nested function: offsets of different functions collide", loc)
                         continue
                 rep.ok(rid, key)
